@@ -20,7 +20,7 @@ ASSUMPTIONS = [
 
 
 def plan(tier):
-    return {"n_random": 1000 if tier == "quick" else 8000, "time_s": 600 if tier == "quick" else 1750, "shrink_evals": 40 if tier == "quick" else 300}
+    return {"n_random": 2000 if tier == "quick" else 10000, "time_s": 600 if tier == "quick" else 1750, "shrink_evals": 40 if tier == "quick" else 300}
 
 
 @st.composite
